@@ -225,6 +225,7 @@ class Policy:
     clone_identity = True
     record_calls = True
     std_models = True
+    deref_identity = True
 
     def inline(self, fn, args, interp, path):
         """Return True to inline a crate-local callee."""
@@ -409,12 +410,34 @@ class Interp:
         return Unknown(k)
 
     def const(self, o):
+        if o.get("promoted_key"):
+            v = self.eval_promoted(o["promoted_key"])
+            if v is not None:
+                return v
         if "fn" in o:
             return FnItem(o["fn"])
         if "closure" in o:
             return Closure(o["closure"], {})
         bits = int(o["bits"]) if o.get("bits") is not None else None
         return Const(o["ty"], bits, o.get("str"), o.get("text"), o.get("named"))
+
+    def eval_promoted(self, key):
+        """Value of a promoted constant (`&Paren::Close`, `&Some(true)`, ...): its tiny MIR body is interpreted."""
+        cache = self.fb.__dict__.setdefault("_promoted_vals", {})
+        if key in cache:
+            return cache[key]
+        cache[key] = None  # recursion guard
+        body = self.fb.promoted.get(key)
+        if body is None:
+            return None
+        sub = Interp(self.fb, Policy())
+        ps = sub.run(body, [])
+        if len(ps) == 1 and ps[0].status == "return" and ps[0].result is not None:
+            # the frame is gone: resolve references into it
+            p = ps[0]
+            v = p.result
+            cache[key] = v if not isinstance(v, Ref) else None
+        return cache[key]
 
     def rvalue(self, path, frame, rv):
         k = rv["k"]
@@ -552,7 +575,8 @@ class Interp:
                 frame.bb = t["target"]
             elif k == "return":
                 rv = frame.locals.get(0, Tup([]))
-                # resolve refs into the dying frame? (cannot escape in safe Rust)
+                if len(path.frames) == 1:
+                    rv = self.snap_deep(path, rv)
                 path.frames.pop()
                 if not path.frames:
                     path.status, path.result = "return", rv
@@ -651,6 +675,10 @@ class Interp:
         pass
 
     def callee_body(self, fn):
+        if fn.get("trait"):
+            b = self.fb.impl_method(fn)
+            if b is not None:
+                return b
         if not fn.get("local"):
             return None
         return self.fb.bodies.get(fn["path"])
@@ -698,6 +726,12 @@ class Interp:
         if pol.clone_identity and tr == "std::clone::Clone" and fn["name"] == "clone":
             return self._finish_call(path, frame, t, self._snap(path, args[0]))
         if name in ("std::hint::must_use", "std::boxed::Box::<T>::new"):
+            return self._finish_call(path, frame, t, args[0])
+        if pol.deref_identity and args and (
+                (tr in ("std::ops::Deref", "std::ops::DerefMut") and fn["name"] in ("deref", "deref_mut"))
+                or (tr in ("std::convert::AsRef", "std::convert::AsMut", "std::borrow::Borrow", "std::borrow::BorrowMut"))
+                or fn["name"] in ("as_slice", "as_mut_slice", "as_str", "as_mut_str", "as_ref", "as_mut") and len(args) == 1):
+            # smart-pointer / view conversions: the result denotes the same object
             return self._finish_call(path, frame, t, args[0])
         if pol.std_models and args:
             sm = self._std_model(name, [self._snap(path, a) for a in args])
@@ -759,16 +793,22 @@ class Interp:
         return None
 
     def _snap(self, path, v):
-        """Value snapshot: references are replaced by what they point to."""
+        """Value snapshot: references are replaced by what they point to (also inside closures'
+        captures, tuples and ADT payloads, so that the value stays meaningful outside its frame)."""
         n = 0
         while isinstance(v, Ref) and n < 10:
             v = self.deref(path, v)
             n += 1
+        if isinstance(v, (Closure, Tup, Variant)) and _has_ref(v):
+            return self.snap_deep(path, v)
         return v
 
     def snap_deep(self, path, v, depth=0):
         """Snapshot with captured references resolved (so the value outlives its frame)."""
-        v = self._snap(path, v)
+        n = 0
+        while isinstance(v, Ref) and n < 10:
+            v = self.deref(path, v)
+            n += 1
         if depth > 6:
             return v
         if isinstance(v, Closure):
@@ -857,6 +897,20 @@ class Interp:
         env = self_arg if self_arg is not None else fv
         self._push(path, body, [env] + list(args), t["dest"], t["target"])
         return None
+
+
+def _has_ref(v, depth=0):
+    if depth > 8:
+        return False
+    if isinstance(v, Ref):
+        return True
+    if isinstance(v, Closure):
+        return any(_has_ref(x, depth + 1) for x in v.caps.values())
+    if isinstance(v, Tup):
+        return any(_has_ref(x, depth + 1) for x in v.elems)
+    if isinstance(v, Variant):
+        return any(_has_ref(x, depth + 1) for x in v.fields.values())
+    return False
 
 
 _WIDTH = {"i8": 8, "u8": 8, "i16": 16, "u16": 16, "i32": 32, "u32": 32, "i64": 64, "u64": 64,
